@@ -380,6 +380,22 @@ Proof.
   induction ops as [|o ops IH]; intros d C; [exact C|]. cbn [fold_left]. apply IH. now apply current_apply.
 Qed.
 
+(* any structural edit, treated abstractly: the result is current whatever the new forest is and whatever
+   stored fields its layers carried *)
+Lemma current_recompute m f' : current (recompute m f').
+Proof. unfold current, recompute; cbn [mode lay]. now rewrite compute_idem. Qed.
+
+Lemma clear_fresh_erase t : clear_t t = fresh_t (erase_t t).
+Proof. unfold clear_t, fresh_t, erase_t. rewrite tmap_tmap. reflexivity. Qed.
+
+Lemma recompute_ignores_old_fields m f g : map erase_t f = map erase_t g -> recompute m f = recompute m g.
+Proof.
+  intro E. unfold recompute, compute. f_equal. f_equal.
+  rewrite (map_ext clear_t (fun t => fresh_t (erase_t t)) clear_fresh_erase f).
+  rewrite (map_ext clear_t (fun t => fresh_t (erase_t t)) clear_fresh_erase g).
+  rewrite <- !map_map with (f := erase_t) (g := fresh_t). now rewrite E.
+Qed.
+
 Lemma current_levels d l : current d -> sublevel (lay d) l -> level_ok (mode d) l.
 Proof.
   unfold current. intros C S. rewrite C, compute_spec in S. eapply clip_spec_levels; exact S.
